@@ -1,6 +1,8 @@
 //! aissim — deterministic simulation with fault injection for squidpickles/ais.
 //! See /verif/DESIGN.md. Built by /verif/check against the repository's working tree.
 
+#![allow(dead_code)] // a few accessors are kept for replay tooling and future oracles
+
 mod cli;
 mod extra;
 mod fidelity;
